@@ -64,8 +64,9 @@ def add_shake(reg):
         cls = mod + name + '_XOF'
         s = ST()
         reg.add(ClassContract(cls, fields={'_state': 'obj:' + SP, '_is_squeezing': 'bool', '_padding': 'int'},
-                              valid=['%s.g_sq ==> self._is_squeezing' % s, '%s.g_sq ==> %s.g_pad == self._padding' % (s, s),
-                                     'not %s.g_sq ==> %s.g_out == 0' % (s, s), 'self._padding == 0x1F', '%s.g_p1 == %d and %s.g_p2 == 24' % (s, cap, s)]))
+                              # (all((..)) / any((..)): conjunction / disjunction evaluated without forking)
+                              valid=['all((any((not %s.g_sq, self._is_squeezing)), any((not %s.g_sq, %s.g_pad == self._padding)), '
+                                     'any((%s.g_sq, %s.g_out == 0)), self._padding == 0x1F, %s.g_p1 == %d, %s.g_p2 == 24))' % (s, s, s, s, s, s, cap, s)]))
         fresh = {'absorbed': '%s.g_data == (b"" if data is None else bytes(data))',
                  'sponge': '%s.g_p1 == ' + str(cap) + ' and %s.g_p2 == 24',
                  'absorbing': 'not %s._is_squeezing and not %s.g_sq and %s.g_out == 0'}
@@ -130,7 +131,7 @@ def add_sha3(reg):
         s = ST()
         reg.add(ClassContract(cls, fields={'_state': 'obj:' + SP, '_update_after_digest': 'bool', '_digest_done': 'bool',
                                            '_padding': 'int', '_digest_value?': 'bytes'},
-                              valid=['not %s.g_sq' % s, 'self._padding == 0x06', '%s.g_p1 == %d and %s.g_p2 == 24' % (s, 2 * ds, s)]))
+                              valid=['all((not %s.g_sq, self._padding == 0x06, %s.g_p1 == %d, %s.g_p2 == 24))' % (s, s, 2 * ds, s)]))
 
         def post(o, uad):
             so = ST(o)
@@ -173,8 +174,8 @@ def add_keccak(reg):
     s = ST()
     reg.add(ClassContract(cls, fields={'digest_size': 'int', '_state': 'obj:' + SP, '_update_after_digest': 'bool', '_digest_done': 'bool',
                                        '_padding': 'int'},
-                          valid=['not %s.g_sq' % s, 'self._padding == 0x01', '%s.g_p1 == 2 * self.digest_size and %s.g_p2 == 24' % (s, s),
-                                 'self.digest_size in (28, 32, 48, 64)']))
+                          valid=['all((not %s.g_sq, self._padding == 0x01, %s.g_p1 == 2 * self.digest_size, %s.g_p2 == 24, '
+                                 'self.digest_size in (28, 32, 48, 64)))' % (s, s, s)]))
 
     def post(o, ds, uad):
         so = ST(o)
@@ -278,6 +279,7 @@ def add_k12(reg):
                                        '_hash2': T + '|none', '_length2': 'int', '_ctr': 'int'},
                           # (conjunctions are written all((..)): evaluated without forking, which keeps path exploration cheap)
                           valid=['all((len(self._custom) >= 1, len(self._custom) < pow2(2039)))', 'self._hash1._capacity == 32',
+                                 'self._state in (1, 2, 3, 4)',
                                  'self._state != 4 ==> not self._hash1._is_squeezing',
                                  'self._state == 4 ==> all((self._padding in (0x06, 0x07), self._hash1._domain == self._padding))',
                                  # SHORT_MSG: everything so far is in the final node, and it still fits one chunk together with C
@@ -369,6 +371,10 @@ def units(prop, tier):
         u('hash.sha3.keccak.update_digest', [KECCAK + '.update', KECCAK + '.digest'])
         u('hash.k12.turboshake.init', [TURBO + '.__init__', TURBO + '.new', H + 'TurboSHAKE128.new', H + 'TurboSHAKE256.new'])
         u('hash.k12.turboshake.update_read', [TURBO + '.update', TURBO + '.read', TURBO + '._reset'])
+        u('hash.k12.length_encode', [K12M + '_length_encode'])
+        u('hash.k12.k12.init', [K12 + '.__init__', K12M + 'new'])
+        u('hash.k12.k12.update', [K12 + '.update'])
+        u('hash.k12.k12.read', [K12 + '.read'])
     if prop in ('C09', 'C10'):
         # C09: g_data' == g_data ++ data, read() through the ghost output position; C10: guards, frames on refusal, copy()
         for c in SHAKE:
@@ -377,6 +383,8 @@ def units(prop, tier):
             u('hash.sha3.%s' % c.split('.')[2], [c + '.update', c + '.digest'] + ([c + '.copy'] if prop == 'C10' else []))
         u('hash.sha3.keccak', [KECCAK + '.update', KECCAK + '.digest'])
         u('hash.k12.turboshake', [TURBO + '.update', TURBO + '.read'] + ([TURBO + '._reset'] if prop == 'C10' else []))
+        u('hash.k12.k12.update', [K12 + '.update'])
+        u('hash.k12.k12.read', [K12 + '.read'])
     if prop == 'C19':
         for c in SHAKE:
             u('hash.shake.%s.copy' % c.split('.')[2], [c + '.copy', c + '.update', c + '.read'])
